@@ -115,6 +115,9 @@ def glr_grammar_worker(args):
                 if len(res["samples"]) < 2 and expect_ok and len(w) >= 2:
                     res["samples"].append({"grammar": text, "tables": KIND_NAME[kind], "input": txt,
                                            "outcome": st})
+                if st == "budget":
+                    viol("glr.parse_terminates", kind, txt, {"observed": "more than 3000 reductions"})
+                    continue
                 if st == "exc":
                     viol("glr.only_syntax_error", kind, txt, {"expected": "forest or parglare.SyntaxError",
                                                               "observed": exc_str(val)})
